@@ -558,18 +558,24 @@ func (r *patchRunner) Apply(filename string, f *ast.File) (fout *ast.File, comme
 				continue
 			}
 
+			cl := engine.NewChangelog()
+
+			out, applied, err := c.Apply(d, cl)
+			if err == nil && !applied {
+				// Found, but nowhere the replacement can stand: this
+				// change didn't modify the file either.
+				continue
+			}
+
 			matched = true
 			comments = c.Comments
 
-			cl := engine.NewChangelog()
-
-			var err error
-			fout, err = c.Replace(d, cl)
 			if err != nil {
 				vhook.Event("replace_error", "file", filename, "name", c.Name)
 				r.errors = append(r.errors, fmt.Errorf("could not update %q: %v", filename, err))
 				return nil, comments, false
 			}
+			fout = out
 
 			snap = snap.Diff(fout, cl)
 			cleanupFilePos(r.fset.File(fout.Pos()), cl, fout.Comments)
